@@ -164,6 +164,10 @@ pub fn run(ctx: &mut Ctx) {
     let crafted_docs: Vec<(&str, Vec<u8>)> = vec![
         ("x_integer_40_bytes", der::sm2cipher_encode(&[0x7f; 40], &raw[33..65], &raw[65..97], &raw[97..])),
         ("y_integer_40_bytes", der::sm2cipher_encode(&raw[1..33], &[0x7f; 40], &raw[65..97], &raw[97..])),
+        ("x_integer_33_bytes_2^256", der::sm2cipher_encode(&[&[1u8][..], &[0u8; 32][..]].concat(), &raw[33..65], &raw[65..97], &raw[97..])),
+        ("y_integer_33_bytes_2^256", der::sm2cipher_encode(&raw[1..33], &[&[1u8][..], &[0u8; 32][..]].concat(), &raw[65..97], &raw[97..])),
+        ("x_integer_33_bytes_7f", der::sm2cipher_encode(&[0x7f; 33], &raw[33..65], &raw[65..97], &raw[97..])),
+        ("y_integer_34_bytes", der::sm2cipher_encode(&raw[1..33], &[0x01; 34], &raw[65..97], &raw[97..])),
         ("x_zero", der::sm2cipher_encode(&[0], &raw[33..65], &raw[65..97], &raw[97..])),
         ("xy_zero", der::sm2cipher_encode(&[0], &[0], &raw[65..97], &raw[97..])),
         ("hash_31_bytes", der::sm2cipher_encode(&raw[1..33], &raw[33..65], &raw[65..96], &raw[97..])),
